@@ -234,3 +234,52 @@ pub fn c25_prefix_scan_bound() {
     }
     std::mem::forget(succ);
 }
+
+/// C07: the real async `handle_append_entries` on an entry-less request (heartbeat / probe), every follower log of
+/// <= 4 entries, every prev index/term, leader commit and follower commit: a request that is NOT accepted never
+/// moves the commit index; an accepted one moves it to min(leader_commit, last entry) only when the leader's
+/// commit is ahead, and acknowledges the follower's own last log id.
+#[kani::proof]
+#[kani::stub(std_catch_unwind, cu)]
+#[kani::stub(tracing::level_filters::LevelFilter::current, stub_level_off)]
+#[kani::stub(tracing::callsite::DefaultCallsite::register, stub_callsite_register)]
+#[kani::stub(std::time::Instant::now, fixed_std_now)]
+#[kani::stub(tokio::time::Instant::now, fixed_tokio_now)]
+#[kani::unwind(2)]
+pub fn c07_heartbeat_commit_rule() {
+    // concrete log SHAPE (2 entries), symbolic terms: the symbolic-length variant ran out of memory
+    let (t0, t1): (u64, u64) = (kani::any(), kani::any());
+    kani::assume(t0 >= 1 && t0 <= t1);
+    let f = Arc::new(VLog::new(2, [t0, t1, 0, 0]));
+    let h = ReplicationHandler::<VT>::new(1);
+    let my_term: u64 = kani::any();
+    let my_commit: u64 = kani::any();
+    kani::assume(my_commit <= f.len());
+    let snap = StateSnapshot { role: 0, current_term: my_term, voted_for: None, commit_index: my_commit };
+    let req = AppendEntriesRequest { term: kani::any(), leader_id: 9, prev_log_index: kani::any(), prev_log_term: kani::any(), entries: Vec::with_capacity(1), leader_commit_index: kani::any() };
+    kani::assume(req.prev_log_index >= 1 || req.prev_log_term == 0);
+    let (prev, pt, lc, rt) = (req.prev_log_index, req.prev_log_term, req.leader_commit_index, req.term);
+    let r = run_ready(h.handle_append_entries(req, &snap, &f)).unwrap();
+    let resp = r.response;
+    let prev_matches = (prev == 0 && pt == 0) || (prev >= 1 && prev <= f.len() && f.term_at(prev) == pt);
+    kani::cover!(resp.is_conflict() && lc > my_commit, "rejected probe carrying a higher leader commit");
+    kani::cover!(resp.is_success() && r.commit_index_update.is_some(), "accepted heartbeat advances the commit index");
+    kani::cover!(resp.is_higher_term(), "stale leader");
+    assert!(f.i.r().writes == 0, "C07:entry_less_request_modified_the_log");
+    if my_term > rt {
+        assert!(resp.is_higher_term() && r.commit_index_update.is_none(), "C07:stale_term_request_moved_commit_or_was_not_rejected");
+    } else if !prev_matches {
+        assert!(resp.is_conflict(), "C04:request_accepted_without_matching_prev_entry");
+        assert!(r.commit_index_update.is_none(), "C07:rejected_request_moved_the_commit_index");
+    } else {
+        assert!(resp.is_success(), "C04:matching_prev_entry_rejected");
+        match r.commit_index_update {
+            Some(c) => {
+                assert!(lc > my_commit, "C07:commit_update_without_higher_leader_commit");
+                assert!(c == if lc < f.len() { lc } else { f.len() }, "C07:commit_is_min_of_leader_commit_and_last_entry");
+            }
+            None => assert!(lc <= my_commit, "C07:higher_leader_commit_ignored"),
+        }
+    }
+    std::mem::forget(f);
+}
